@@ -138,6 +138,17 @@ def run_div(case, ctx, g):
         top = 2.0 ** (1.0 / d)
         y = ctx.call('rank1TT', lambda: torchtt.rank1TT([1.0 + (top - 1.0) * torch.rand(n, generator=g, dtype=dt) for n in N]))
         ctx.count('divisor:rank-one')
+    # provenance of the operands: harness-built, or handed out by the library's own TT-SVD / rounding (numpy-integer rank lists, non-contiguous cores, another gauge)
+    prov = ['built', 'built', 'TT-SVD', 'round'][case['vseed'] % 4] if dn.prod(N) <= 4000 else 'built'
+    if prov == 'TT-SVD':
+        x = ctx.call('TT(dense)', lambda a: torchtt.TT(a.full(), eps=1e-14), x)
+        y = ctx.call('TT(dense)', lambda a: torchtt.TT(a.full(), eps=1e-14), y)
+    elif prov == 'round':
+        x = ctx.call('round', lambda a: a.round(1e-15), x)
+        y = ctx.call('round', lambda a: a.round(1e-15), y)
+    if not (isinstance(x, torchtt.TT) and isinstance(y, torchtt.TT)):
+        return
+    ctx.count('operand-provenance:' + prov)
     dy = dn.D(y)
     if not (float(dy.min()) >= 1.0 - 1e-9 and float(dy.max()) <= 1.0 + zr * zr + 1e-9):
         ctx.count('rejected:divisor-not-in-[1,2]')
